@@ -1,4 +1,5 @@
 import Sif.Proofs.C13Forced
+import Sif.Generated.MarginKeys
 import Sif.Proofs.C13Examples
 /-
   C13 — margin positions agree with pool totals and are liquidated only when unhealthy.
@@ -270,6 +271,31 @@ theorem processed_position_kept_or_liquidated (w : W) (hwf : WF w.s = true) (hok
   have := forced_only_unhealthy w hwf hok hs h0 hgone
   rw [this] at habove
   cases habove
+
+/-! ### tie 1: how the code selects "the positions of a pool" (facts regenerated from the source on every run) -/
+
+/-- the model's `GetMTPsForPool` keeps exactly the stored positions whose custody or collateral asset
+    *equals* the pool's symbol -/
+theorem model_mtpsForPool_exact (s : State) (sym : Asset) (m : Mtp) :
+    m ∈ mtpsForPool s sym ↔ m ∈ s.mtps ∧ (m.cust = sym ∨ m.coll = sym) := by
+  unfold mtpsForPool
+  simp [List.mem_filter]
+
+/-- …and so does the code: `Keeper.GetMTPsForPool`, as it stands in the working tree, selects by asset
+    equality (an equality filter over the whole position store, or a prefix scan that cannot end
+    inside a longer symbol).  A prefix iterator over `prefix | asset | address | id` fails here. -/
+theorem code_getMTPsForPool_selects_by_exact_asset :
+    Keys.selectOK Sif.Generated.MarginKeys.keyCtors Sif.Generated.MarginKeys.getMTPsForPool = true := by decide
+
+/-- every store key constructor of x/margin parses uniquely: no unterminated variable-length component
+    is followed by another component, except an account address (fixed length) followed by the 8-byte id -/
+theorem code_margin_keys_unambiguous :
+    Sif.Generated.MarginKeys.keyCtors.all (fun c => Keys.compsOK c.comps) = true := by decide
+
+/- the conditions are not vacuous: the composite index key of the kind they exclude is refused -/
+example : Keys.compsOK [.const "MTPPoolIndexPrefix", .str "asset", .str "address", .u64 "id"] = false := by decide
+example : Keys.selectOK [⟨"GetMTPPoolIndexPrefix", [.const "MTPPoolIndexPrefix", .str "asset"]⟩] (.prefixScan "GetMTPPoolIndexPrefix") = false := by decide
+example : Keys.selectOK [] (.filterAssetEq "MTPPrefix" true false) = false := by decide
 
 /-! ### non-vacuity: a concrete pool, trader and history meet the hypotheses and take the success paths -/
 
